@@ -788,7 +788,8 @@ fn classic_cases(thorough: bool) -> Vec<Case> {
     }
     // recursion and kernels
     for c in calls_cases(None, 2) {
-        if c.tags[0].starts_with("calls/recursion") || c.tags[0].starts_with("calls/mutual") || c.tags[0].starts_with("calls/constant") {
+        // classic has no `&rest` call tails: those programs are outside the classic-expressible subset
+        if c.tags[0].starts_with("calls/recursion") || c.tags[0].starts_with("calls/mutual") || c.tags[0] == "calls/constant-calls-in-helper" {
             out.push(c);
         }
     }
